@@ -672,8 +672,8 @@ def lazyItemsOrig (_A : Aff) (raw : List Item) : Option (List Item) := some raw
   `out` is the header text up to and excluding the `file` entry (magic, count, datatype, extra
   fields — any bytes).  `save` writes `out`, then `\nfile: . <N>\nEND\n`, then the data triples as
   little-endian float32.  The reader takes `N = int(hdr['file'].split()[1])`, seeks to byte `N` and
-  decodes whatever is there in 12-byte groups.  (The line-oriented header parser itself is not
-  modelled: `tckAnnounced` reads the digits that follow the `file: . ` text.) -/
+  decodes whatever is there in 12-byte groups.  (`tckAnnounced` reads the digits that follow the
+  `file: . ` text; the line-oriented header parser itself is `tckHeaderOffset` in Model/C16_Ext §4.) -/
 
 def encWord (w : Nat) : List Nat := [w % 256, w / 256 % 256, w / 65536 % 256, w / 16777216 % 256]
 def decWord (a b c d : Nat) : Nat := a + 256 * b + 65536 * c + 16777216 * d
